@@ -47,7 +47,7 @@ package common
 
 // new format: IV(16) ++ CBC(kdf(password), IV, key)
 //@ func CBCEncrypterPrivkey [C37]
-//@   opt safety=assumed overflow=assumed bytescat=yes
+//@   opt safety=assumed overflow=assumed bytescat=yes deadreturns=allowed
 //@   assert@call NewCipher: len(arg0) == 32 && bytes(arg0) == kdf(bytes(password))
 //@   assert@call NewCBCEncrypter: arg0.aeskey == kdf(bytes(password))
 //@   assert@call CryptBlocks: arg0.aeskey == kdf(bytes(password)) && arg0.cbciv == bytes(iv) && !arg0.cbcdec
@@ -63,7 +63,7 @@ package common
 
 // new format iff the blob is IV + 32 or 64 bytes of ciphertext; otherwise the legacy fixed IV
 //@ func CBCDecrypterPrivkey [C37]
-//@   opt safety=assumed overflow=assumed
+//@   opt safety=assumed overflow=assumed deadreturns=allowed
 //@   assert@call NewCipher: len(arg0) == 32 && bytes(arg0) == kdf(bytes(password))
 //@   assert@call NewCBCDecrypter: arg0.aeskey == kdf(bytes(password))
 //@   assert@call NewCBCDecrypter#0: bytes(arg1) == bsub(old(bytes(privkey)), 0, 16)
